@@ -175,7 +175,7 @@ CHECKS['C02'] = dict(
 _RIT = H('h_riter.c', 'asan', exclude=['mtbl/iter.c', 'mtbl/block.c', 'mtbl/reader.c'], blackbox=dict())
 CHECKS['C03'] = dict(
     level=MC, engine='bfs',
-    technique='explicit-state breadth-first search over the real reader iterator objects: states are operation histories replayed on fresh iterators, deduplicated by a canonical hash of the private iterator fields plus the reference model state, run to a fixpoint; plus an undeduplicated depth-bounded tree and a two-iterator product',
+    technique='explicit-state breadth-first search over the real reader iterator objects: states are operation histories replayed on fresh iterators, deduplicated by a canonical hash of the private iterator fields plus the reference model state, run to a fixpoint (if that private view does not compile against the tree: no deduplication, depth-bounded); plus an undeduplicated depth-bounded tree and a two-iterator product',
     text='For every table layout (1-4 blocks of 1-3 entries, plus 5-10 entry blocks so that galloping/binary search over restart points is exercised), restart interval {1,2,3,16}, foreign prefix {0,13}, compression {none,lz4}, and every iterator kind (iter, get, get_prefix, get_range with boundary/miss/reversed arguments) the search applies next and seek(k) for every k in the target set (stored keys, just-below neighbours, empty key, past-the-end key, index separators) from EVERY reachable iterator state until no new state appears, checking each step against a lower-bound reference iterator and re-reading the previously returned buffers. Because the state space is finite the verdict holds for histories of any length, which is exactly what the property quantifies over.',
     jobs=[
         dict(name='pair', spec=_RIT, args=['pair']),
@@ -213,7 +213,7 @@ CHECKS['C04'] = dict(
 )
 CHECKS['C05'] = dict(
     level=MC, engine='bfs',
-    technique='explicit-state breadth-first search over the real merger iterator (state = replayed history, canonical hash of heap, look-ahead entries, cur_key/cur_val, flags and every source iterator), to a fixpoint; undeduplicated tree; exhaustive one-shot lookups',
+    technique='explicit-state breadth-first search over the real merger iterator (state = replayed history, canonical hash of heap, look-ahead entries, cur_key/cur_val, flags and every source iterator), to a fixpoint (if that private view does not compile against the tree: no deduplication, depth-bounded); undeduplicated tree; exhaustive one-shot lookups',
     text='For every family of k<=2 (thorough 3) sources over {empty key, a, b, c}, every merger iterator kind (iter, get, get_prefix, get_range over boundary arguments) with and without merge function, next and seek(k) for k over the universe and its neighbours are applied from every reachable state until closure; each step is checked against a lower-bound reference over the merged content (values compared as fold trees). This covers seeking to the key just returned, backwards after exhaustion, and onto keys that need merging, from any prior history.',
     jobs=[
         dict(name='lookup', spec=_MRG, args=['lookup']),
